@@ -780,9 +780,18 @@ def _check_built(ctx, case, built):  # noqa: C901, PLR0912, PLR0915
                 qsrc = (f"{names['cls'][qi]}[" + ", ".join(
                     [*parts[:lo], "Unpack[Tuple[" + ", ".join(parts[lo:hi]) + "]]", *parts[hi:]]) + "]")
                 labels_extra.append("query_args_as_unpacked_tuple")
-                if mode != 1 and len(params) > 1:
+                if (lo, hi) != (params.index(TVT), params.index(TVT) + len(q["args"]) - (len(params) - 1)):
                     labels_extra.append("unpacked_tuple_feeds_plain_typevar")
-        tp = eval(qsrc, ns)  # noqa: S307
+        try:
+            tp = eval(qsrc, ns)  # noqa: S307
+        except TypeError:
+            if not labels_extra:
+                raise
+            # typing itself refuses this spelling (an unpacked tuple counts as ONE argument when typing checks
+            # the minimal number of arguments) -> use the plain spelling
+            ctx.count("unpacked_spelling_rejected_by_python")
+            labels_extra.clear()
+            tp = eval(render(["gen", qi, q["args"]], names, "typing"), ns)  # noqa: S307
 
     labels, levels, permuted = structure_labels(h, case, defs, qi)
     labels += [f"kind:{kind}", f"debug:{case['debug']}", f"spelling:{case['spelling']}", *labels_extra]
